@@ -8,6 +8,7 @@ CONSTANTS
   AllowExcl = TRUE
   AllowCat3 = FALSE
   AllowReuse = FALSE
+  Extras = TRUE
   AllowFindings = FALSE
 INVARIANT InvToldIsActual
 INVARIANT InvAddAligned
